@@ -30,7 +30,24 @@ def choose_tracker(cfg, tix, rng):
         for i, x in enumerate(nodes):
             groups[i % g if i < g else rng.randrange(g)].append(x)
         return [name, groups]
+    if name == 'NodeClassMatrix' and cfg['k'] >= 2 and rng.random() < 0.5:
+        perm = list(range(cfg['k']))
+        while perm == list(range(cfg['k'])):
+            rng.shuffle(perm)
+        return [name, perm]          # a custom class_ordering (columns in another order than the alphabetical class order)
     return name
+
+
+def canon_state(cfg, st):
+    """NodeClassMatrix with a custom class_ordering: the tracked matrix has its columns in that order; put them back in class order before
+    the acceptor sees it (column of class c = position of c in the ordering)"""
+    t = cfg.get('tracker')
+    if not (isinstance(t, list) and t[0] == 'NodeClassMatrix' and len(t) > 1 and t[1] is not None):
+        return st
+    try:
+        return [[row[t[1].index(c)] for c in range(len(t[1]))] for row in st]
+    except Exception:
+        return st
 
 
 def tracker_name(cfg):
@@ -302,8 +319,10 @@ class C17(Prop):
         configurations; the TrackerInc invariant (tinvc_b) is evaluated on the same real snapshots"""
         import engine_k2, sx
         cfg = tr.cfg
-        if not engine_k2.in_scope(cfg) or not tr.frames:
+        if not tr.frames:
             return None
+        if not engine_k2.in_scope(cfg):
+            return self.extra_corr2(tr, drv)
         ecfg = engine_k2.enc_cfg(cfg)
         st = {'events_whose_tracker_calls_were_compared_with_the_model': 0, 'tracker_calls_compared': 0}
         prev = tr.init
@@ -337,6 +356,49 @@ class C17(Prop):
             prev, nxt, now = f['snap'], f['next'], f['next_date']
         return {'stats': st}
 
+    def extra_corr2(self, tr, drv):
+        """the same on the STAGE-2 engine model (TrackerInc2.calls_event_step, dispatch_model 45): reneging (change_state_renege), jockeying,
+        pre-emption with and without reroute, class change while waiting, Schedules, slots; the invariant Idx on the real snapshots; how many
+        of them satisfy the hypotheses of the NaiveBlocking theorem is counted"""
+        import engine_k2b, sx
+        cfg = tr.cfg
+        kcfg = {x: y for x, y in cfg.items() if x not in ('tracker', 'hist_new')}
+        if not engine_k2b.in_scope(kcfg) or len(getattr(tr, 'run_ends', None) or []) > 1:
+            return None
+        ecfg = engine_k2b.enc_cfg(kcfg, tr.init)
+        st = {'stage2_events_whose_tracker_calls_were_compared_with_the_model': 0, 'stage2_tracker_calls_compared': 0, 'stage2_snapshots_in_the_naive_blocking_scope': 0}
+        prev = tr.init
+        lab = tr.frames[0]['label']
+        nxt = 0 if lab[0] == 'arrival' else lab[1]
+        now = tr.frames[0]['now']
+        cyc = [[0] * cfg['n'] for _ in range(cfg['k'])]
+        for k, f in enumerate(tr.frames[:40]):
+            if not isinstance(now, int):
+                break
+            v = drv.ask('m45', sx.dump([ecfg, engine_k2b.enc_state(prev, kcfg, nxt, now, cyc), engine_k2b.draws_of(f['cev'])]))
+            o = engine_k2b.parse(v[1]) if v[0] == 'M' else None
+            if not isinstance(o, list) or len(o) != 3:
+                return {'stats': st, 'mismatch': {'frame': k + 1, 'what': 'AllRun2.run_calls2 could not read the snapshot', 'got': str(v)[:120]}}
+            real = []
+            for e in f['cev']:
+                if e[0] == 'TrkAcc':
+                    real.append([0, e[1], e[2]])
+                elif e[0] == 'TrkBlk':
+                    real.append([1, e[1], e[2], e[3], e[4]])
+                elif e[0] == 'TrkRel':
+                    real.append([2, e[1], e[2], e[3], e[4], e[5]])
+                elif e[0] == 'TrkChg':
+                    real.append([3, e[1], e[2], e[3]])
+            if o[0] != 1 or o[2] != real:
+                return {'stats': st, 'mismatch': {'frame': k + 1, 'what': 'the tracker calls of the stage-2 engine model differ from the real engine\'s, or Idx fails on the real snapshot',
+                                                  'idx': o[0], 'model_calls': o[2][:8], 'real_calls': real[:8], 'label': f['label']}}
+            st['stage2_events_whose_tracker_calls_were_compared_with_the_model'] += 1
+            st['stage2_tracker_calls_compared'] += len(real)
+            st['stage2_snapshots_in_the_naive_blocking_scope'] += o[1]
+            cyc = engine_k2b.cyc_after(cyc, f['cev'], kcfg)
+            prev, nxt, now = f['snap'], f['next'], f['next_date']
+        return {'stats': st}
+
     def adjust(self, cfg, job):
         if cfg.get('tracker') is None or 'tix' in job:
             rng = random.Random('c17t/%s/%s' % (cfg.get('gen_seed'), cfg.get('region')))
@@ -351,10 +413,12 @@ class C17(Prop):
     def project(self, tr):
         frs = used_frames(tr)
         hn = tr.hist_new
-        init = [0, tr.init['tracker'], raw_of(tr.init), [], hist_entries(hn.get(0, []))]
+        cs = lambda st: canon_state(tr.cfg, st)
+        hist_entries = lambda h: [[t, cs(st)] for t, st in h]
+        init = [0, cs(tr.init['tracker']), raw_of(tr.init), [], hist_entries(hn.get(0, []))]
         out = []
         for k, f in enumerate(frs):
-            out.append([f['now'], f['snap']['tracker'], raw_of(f['snap']), bevs(f['cev']), hist_entries(hn.get(k + 1, []))])
+            out.append([f['now'], cs(f['snap']['tracker']), raw_of(f['snap']), bevs(f['cev']), hist_entries(hn.get(k + 1, []))])
         fin = [hist_entries(tr.hist_full)] if tr.hist_full is not None else []
         return [kind_code(tr.cfg), init, out, fin, 1 if tracker_raised(tr) else 0]
 
